@@ -308,7 +308,7 @@ func c03Directed() []struct {
 }
 
 func runC03(c *wk.Ctx) {
-	c.Meta("rule", "(a) ENUMERATED objects: for k=1,2 properties the FULL product of per-property flags (required, default, disabled) x all subsets of the other properties as required_if, required_if_not and conflicts; for k=3 required x default x at most one rule kind per property with every non-empty subset of the two others - each x all 2^k supplied subsets, on a map-based object and on a struct-mapped object with pointer fields; plus the single-property shorthand with non-map values. Quick runs a fixed 1/8 slice of the k=3 space (all of k<=2), thorough all of it. (b) ENUMERATED one-of: {string,int} keys x {inlined, not} x member kinds {object, reference in a scope, scope} x discriminator given as every integer width / float / string / unknown / wrong kind / nil / absent x payloads (valid, missing required, undeclared key, wrong type) x map[string]any / map[any]any / extra non-string key. (c) SAMPLED: generated objects and scopes (4-6 properties, nested, struct-mapped pool) with random supplied subsets. Oracle: reference interpreter (key check, per-property acceptance, defaults never overriding supplied values, presence rules after defaulting, disabled, shorthand, discriminator routing); Validate/Serialize judged on native maps and structs by the reference's constraint check. distinct = hash(schema, input); all enumerated cases are non-trivial")
+	c.Meta("rule", "(a) ENUMERATED objects: for k=1,2 properties the FULL product of per-property flags (required, default, disabled) x all subsets of the other properties as required_if, required_if_not and conflicts; for k=3 required x default x at most one rule kind per property with every non-empty subset of the two others - each x all 2^k supplied subsets, on a map-based object and on a struct-mapped object with pointer fields; plus the single-property shorthand with non-map values. Quick runs a fixed 1/8 slice of the k=3 space (all of k<=2), thorough all of it. (b) ENUMERATED one-of: {string,int} keys x {inlined, not} x member kinds {object, reference in a scope, scope} x discriminator given as every integer width / float / string / unknown / wrong kind / nil / absent x payloads (valid, missing required, undeclared key, wrong type) x map[string]any / map[any]any / extra non-string key. (c) SAMPLED: generated objects and scopes (4-6 properties, nested, struct-mapped pool) with random supplied subsets. Oracle: reference interpreter (key check, per-property acceptance, defaults never overriding supplied values, presence rules after defaulting, disabled, shorthand, discriminator routing); Validate/Serialize judged on native maps and structs by the reference's constraint check. distinct = hash(schema, input); all enumerated cases are non-trivial Directed: struct values of inlined one-of members whose discriminator field is unset - the serialized value carries the discriminator and is routed back to the same member.")
 	c.Meta("assumptions", []string{"disabled property present only through its default: unspecified", "struct-mapped parents with absent by-value sub-objects: unspecified (the SDK materialises them from the sub-object's defaults)",
 		"k=3 enumeration restricts each property to one rule kind; combinations of rule kinds on one property are covered for k<=2 and by sampling"})
 	spaces := c03Spaces()
